@@ -427,3 +427,112 @@ def p_builtins(a, b, c):
 
 BANK = [p_cmp_reflected, p_cmp_decline, p_cmp_left_int, p_cmp_eq_identity, p_cmp_chain, p_binop_reflected, p_binop_decline, p_boolops, p_call_kinds, p_defaults,
         p_err_too_many, p_err_multiple_values, p_err_posonly_by_keyword, p_err_unknown_keyword, p_err_missing, p_err_missing_kwonly_style, p_err_multiple_values_2, p_closure_vs_global, p_closure_prebuilt, p_closure_late_binding, p_closure_default_capture, p_closure_shared_cell, p_class_new_kwargs, p_class_new_all_keywords, p_err_duplicate_in_double_star, p_double_star_ok, p_classes, p_unpack, p_subscripts, p_comprehension, p_control, p_builtins]
+
+# ---------------------------------------------------------------- third round: star positions, nested defaults, dispatch order, short circuit
+def _w(x, y, z, *rest):
+    return x + 3 * y + 7 * z + 11 * len(rest) + 13 * _total(rest)
+
+
+def p_call_star_positions(a, b, c):
+    """positional arguments before, between and after starred ones keep their textual order"""
+    t = (a, b)
+    u = [c]
+    return (_w(*t, c) + _w(*t, c + 1, *u, 5) * 2 + _w(a, *u, b) * 3 + _w(*u, *t) * 5 + _w(*t, *u, a + 1, b + 2) * 7 + _w(*u, b, *t, *u) * 11) % 60000
+
+
+def p_nested_def_defaults(a, b, c):
+    """default values of functions / lambdas defined inside the traced function are evaluated once, at definition"""
+    base = a + 5
+
+    def g(x, y=base, *, z=b + 1):
+        return x + 10 * y + 100 * z
+    h = lambda x, y=c + 2: x * y
+    return g(1) + g(2, 3) + g(3, z=c) + h(4) + h(5, a)
+
+
+class _P:
+    def __init__(self, v):
+        self.v = v
+
+    def __add__(self, o):
+        return ("P.__add__", self.v)
+
+    def __lt__(self, o):
+        return True
+
+
+class _Q(_P):
+    def __radd__(self, o):
+        return ("Q.__radd__", self.v)
+
+    def __gt__(self, o):
+        return False
+
+
+def p_binop_subclass_first(a, b, c):
+    """a right operand whose class is a proper subclass of the left operand's class and overrides the reflected method goes first"""
+    r1 = _P(a) + _Q(b)
+    r3 = _Q(a) + _P(b)
+    return (1 if r1[0] == "Q.__radd__" else 0) + 2 * r1[1] + (16 if r3[0] == "P.__add__" else 0) + 32 * r3[1]
+
+
+def p_cmp_subclass_first(a, b, c):
+    """rich comparisons: the reflected method of a right operand of a proper subclass goes first"""
+    r2 = _P(a) < _Q(b)
+    r4 = _Q(a) > _P(b)
+    return (8 if r2 else 0) + (4 if r4 else 0) + a
+
+
+class _R:
+    def __add__(self, o):
+        return NotImplemented
+
+    def __radd__(self, o):
+        return 5
+
+
+def p_err_same_type_reflected(a, b, c):
+    return _R() + _R()        # CPython: TypeError, the reflected method is not tried for operands of the same type
+
+
+def p_starred_is_list(a, b, c):
+    x, *rest = a, b, c
+    *init, y = (a, b, c)
+    p, *mid, q = [a, b, c, a]
+    return _bits(type(rest) is list, type(init) is list, type(mid) is list, isinstance(rest, tuple)) + 16 * rest[0] + 64 * (len(init) + len(mid))
+
+
+_FLAG_DEFAULT = 0
+
+
+def p_nested_def_default_truth(a, b, c):
+    """the default of a locally defined function is the VALUE of the default expression (here falsy), not a wrapper object"""
+    def g(x, flag=_FLAG_DEFAULT):
+        return flag
+
+    def h(x, items=()):
+        return items
+    r1 = 1 if g(a) else 2
+    r2 = 4 if h(b) else 8
+    r3 = 16 if (lambda x, y=None: y)(c) is None else 32
+    r4 = 64 if g(a, b) else 128
+    return r1 + r2 + r3 + r4
+
+
+class _Node:
+    def __init__(self, v):
+        self.attr = v
+
+
+def p_shortcircuit(a, b, c):
+    """and / or stop at the deciding operand: later operands may be invalid expressions for that value"""
+    x = _Node(b) if a else None
+    lst = [1, 2, 3][:c]
+    r1 = x is not None and x.attr > 0
+    r2 = x is None or x.attr == b
+    r3 = len(lst) > 2 and lst[2] == 3
+    r4 = c == 0 or 6 // c > 1
+    return _bits(r1, r2, r3, r4)
+
+
+BANK += [p_call_star_positions, p_nested_def_defaults, p_binop_subclass_first, p_cmp_subclass_first, p_err_same_type_reflected, p_starred_is_list, p_nested_def_default_truth, p_shortcircuit]
